@@ -209,3 +209,93 @@ Proof. split; vm_compute; reflexivity. Qed.
    three agreement patterns including a null gamma) *)
 Example C03_example_likelihood_hypotheses : em_inv ex_p ex_data.
 Proof. exact ex_inv. Qed.
+
+(* ------------------------------------------------------------------------------------ *)
+(* Invariance under re-presentation (C13): row order, pattern-table order, comparison     *)
+(* labels.  reorder d pi l = map (fun i => nth i l d) pi;  relabel_params pi p keeps lam   *)
+(* and reorders the comparisons; relabel_srow / relabel_drow reorder the gamma (and        *)
+(* term-frequency) columns of a row and keep weight and match probability.                *)
+(* ------------------------------------------------------------------------------------ *)
+
+Theorem C03_mstep_perm_invariant :
+  forall fl p sc sc', no_null_values p -> Permutation sc sc' -> mstep fl p sc = mstep fl p sc'.
+Proof. exact mstep_perm_invariant. Qed.
+Print Assumptions C03_mstep_perm_invariant.
+
+Theorem C03_em_step_perm_invariant :
+  forall fl p data data',
+    no_null_values p -> Permutation data data' ->
+    em_step fl p data = em_step fl p data' /\ no_null_values (em_step fl p data).
+Proof.
+  intros fl p data data' H P. split; [exact (em_step_perm_invariant fl p data data' H P)|].
+  exact (no_null_values_em_step fl p data H).
+Qed.
+Print Assumptions C03_em_step_perm_invariant.
+
+Theorem C03_em_history_perm_invariant :
+  forall fl conv fuel p data data',
+    no_null_values p -> Permutation data data' ->
+    em_history fl conv fuel p data = em_history fl conv fuel p data'.
+Proof. exact em_history_perm_invariant. Qed.
+Print Assumptions C03_em_history_perm_invariant.
+
+Theorem C03_count_patterns_perm :
+  forall rows rows', Permutation rows rows' -> Permutation (count_patterns rows) (count_patterns rows').
+Proof. exact count_patterns_perm. Qed.
+Print Assumptions C03_count_patterns_perm.
+
+Theorem C03_pattern_table_perm_invariant :
+  forall fl p pc pc',
+    no_null_values p -> Permutation pc pc' ->
+    em_step fl p (pattern_data pc) = em_step fl p (pattern_data pc').
+Proof. exact pattern_table_perm_invariant. Qed.
+Print Assumptions C03_pattern_table_perm_invariant.
+
+(* relabelling: no hypothesis is needed for the M-step alone (an index of pi beyond the end
+   reads as an empty comparison and a null gamma) *)
+Theorem C03_mstep_relabel_invariant :
+  forall fl pi p sc,
+    cmps (mstep fl {| lam := lam p; cmps := reorder [] pi (cmps p) |}
+                (map (fun r => (reorder (-1)%Z pi (sg r), sw r, sp r)) sc))
+    = reorder [] pi (cmps (mstep fl p sc)) /\
+    lam (mstep fl {| lam := lam p; cmps := reorder [] pi (cmps p) |}
+               (map (fun r => (reorder (-1)%Z pi (sg r), sw r, sp r)) sc))
+    = lam (mstep fl p sc).
+Proof. exact mstep_relabel_invariant. Qed.
+Print Assumptions C03_mstep_relabel_invariant.
+
+(* a whole EM step: the E-step multiplies the Bayes factors in another order, so the match
+   probabilities agree only up to ==; the canonicalised M-step output is nevertheless equal *)
+Theorem C03_em_step_relabel_invariant :
+  forall fl pi p data,
+    no_null_values p -> Permutation pi (seq 0 (length (cmps p))) ->
+    cmps (em_step fl {| lam := lam p; cmps := reorder [] pi (cmps p) |}
+                  (map (fun r => (reorder (-1)%Z pi (dg r), dw r, reorder None pi (dtf r))) data))
+    = reorder [] pi (cmps (em_step fl p data)) /\
+    lam (em_step fl {| lam := lam p; cmps := reorder [] pi (cmps p) |}
+                 (map (fun r => (reorder (-1)%Z pi (dg r), dw r, reorder None pi (dtf r))) data))
+    = lam (em_step fl p data).
+Proof. exact em_step_relabel_invariant. Qed.
+Print Assumptions C03_em_step_relabel_invariant.
+
+(* two comparisons (the second with a term-frequency adjusted exact level), five rows:
+   swapping the comparisons and shuffling the rows gives the swapped result *)
+Definition demo_p2 : params :=
+  {| lam := 1 # 10;
+     cmps := [ [ {| lv_val := 2; lv_m := Val (6 # 10); lv_u := Val (1 # 10); lv_fixm := false; lv_fixu := false; lv_tfu := None |};
+                 {| lv_val := 0; lv_m := Val (4 # 10); lv_u := Val (9 # 10); lv_fixm := false; lv_fixu := false; lv_tfu := None |} ];
+               [ {| lv_val := 1; lv_m := Val (7 # 10); lv_u := Val (2 # 10); lv_fixm := false; lv_fixu := false; lv_tfu := Some 0%nat |};
+                 {| lv_val := 0; lv_m := Val (3 # 10); lv_u := Val (8 # 10); lv_fixm := false; lv_fixu := true; lv_tfu := None |} ] ] |}.
+Definition demo_data2 : list drow :=
+  [ ([2; 1]%Z, 1, [None; Some (1 # 20)]); ([0; 0]%Z, 3, [None; None]); ([2; 0]%Z, 1, [None; None]);
+    ([-1; 1]%Z, 2, [None; Some (1 # 4)]); ([0; -1]%Z, 1, [None; None]) ].
+Definition demo_shuffled2 : list drow :=
+  [ ([-1; 1]%Z, 2, [None; Some (1 # 4)]); ([0; -1]%Z, 1, [None; None]); ([2; 1]%Z, 1, [None; Some (1 # 20)]);
+    ([2; 0]%Z, 1, [None; None]); ([0; 0]%Z, 3, [None; None]) ].
+
+Example C03_example_relabel_and_shuffle :
+  em_step demo_fl (relabel_params [1; 0]%nat demo_p2) (map (relabel_drow [1; 0]%nat) demo_shuffled2)
+  = relabel_params [1; 0]%nat (em_step demo_fl demo_p2 demo_data2) /\
+  em_step demo_fl demo_p2 demo_shuffled2 = em_step demo_fl demo_p2 demo_data2 /\
+  map (map lv_m) (cmps (em_step demo_fl demo_p2 demo_data2)) <> map (map lv_m) (cmps demo_p2).
+Proof. vm_compute. repeat split. discriminate. Qed.
